@@ -26,6 +26,11 @@ CHECKS = {
         text="Exploration: for each generated expression (C01 generator, rewrite-biased generator, expressions with several fast calls, 10% with a name the environment lacks) and environment value up to 45 (variant, environment representation) results are computed; every pair that succeeds must agree, so type information (specialised equality, map fetch, fast calls, re-typed literals, optimiser rewrites enabled by static types) may only add rejections. No reference model is involved.",
         note="Trusted: Equiv; the struct/pointer/map twins built by the harness hold the same members. Failing variants are not compared. Known-finding regions that make succeeding variants disagree on the unchanged tree (F09 in-range rewrite, F12 sequence equality, F19 argument re-typing) are excluded by construction and counted.",
         ref="4/C15"),
+    "C06": dict(
+        technique="property-based testing (rapid): generator of allocating expressions; reference model = allocation ledger of the independent evaluator; budget drawn relative to the computed total (A-1, A, A+1, ...)",
+        text="Exploration: expressions made only of allocating constructs (array/map literals, ranges with run-time bounds that are ascending, empty, descending or astronomically large, map/filter results, per-element nested allocations) in drawn orders; the reference ledger predicts the total A; with vm.MemoryBudget set to a budget around A the run must complete iff A < budget, refusals must be budget errors, completed results must equal the reference. Optimiser on/off, typed/untyped.",
+        note="Trusted: the ledger in harness/core/refeval.go (what counts as created elements is read off the property statement: arrays, maps and ranges built during evaluation, intermediates included). The reference refuses to build more than 4e5 elements itself (skipped, counted).",
+        ref="4/C06"),
     "C10": dict(
         technique="bounded exhaustive enumeration of (parent kind, child slot, child kind) triples + rapid random ast.Node trees against a reflection-based child enumerator; replacement visitors; Patch differential (41->42) end to end",
         text="Exploration, exhaustive over all single-edge shapes: every node kind in every child slot of every parent kind (optional slots absent/present, lists of length 0-3), each with and without a replacing visitor on Enter and on Exit; random deep trees; parsed and optimised trees of generated programs; and a differential between Compile(src, Patch(41->42)) and Compile(src with 42) with the literal at drawn positions.",
